@@ -236,7 +236,37 @@ namespace sim {
     return region;
   }
 
-  void mark(int kind, const void *addr) { point(kind, addr, 0); }
+  void mark(int kind, const void *addr) {
+    if (selfId == 0 || !active) {
+      // markers written by the main thread between regions (e.g. "a new kernel launch starts")
+      if (tracing && traceFile) { uint64_t rec[2] = { ((uint64_t) kind << 48), (uint64_t) addr }; fwrite(rec, sizeof(rec), 1, traceFile); }
+      return;
+    }
+    point(kind, addr, 0);
+  }
+
+  // Barrier among `count` threads of the current region identified by `tag` (one tag per thread block).
+  // Arrival is a scheduling point and a trace record (kind 6).
+  struct Barrier { const void *tag; int arrived; };
+  static Barrier B[64];
+  void barrier(const void *tag, int count) {
+    point(6, tag, 0);
+    const int me = selfId;
+    if (!active || me == 0 || count <= 1) return;
+    Barrier *b = 0;
+    for (int i = 0; i < 64; ++i) { if (B[i].tag == tag) { b = &B[i]; break; } }
+    if (!b) for (int i = 0; i < 64; ++i) { if (B[i].tag == 0) { b = &B[i]; b->tag = tag; b->arrived = 0; break; } }
+    if (!b) report("engine", "barrier table full");
+    if (++b->arrived >= count) {
+      b->arrived = 0;
+      wake(tag);
+      return;
+    }
+    T[me].blockedOn = tag;
+    const int next = pickDefault(me);
+    if (!next) report("barrier-divergence", "thread %d waits at a barrier that the other threads of its block never reach", me);
+    switchTo(next);
+  }
 
   void setTrace(const char *file) { tracing = true; traceFile = fopen(file, "wb"); }
 
